@@ -5,7 +5,7 @@ import hashlib
 from sa.loader import AnalysisError, norm, walk_local
 from sa.cfg import cfg_of
 from sa.spec import schema_spec as spec
-from .common import analysis, names_in
+from .common import true_facts, analysis, names_in
 
 PROP = "C14"
 TECHNIQUE = "constant folding of the advertised algorithm set and the Java-name mapping; CFG dominance of the unknown-algorithm guard over all hashing; def-use of the hashed bytes (UTF-8); frame of the Rabin routine (seed constant, 8-byte little-endian hex rendering, no module-level state)"
@@ -32,15 +32,12 @@ def run(ctx):
     want = set(hashlib.algorithms_guaranteed) | set(spec.JAVA_NAMES) | {spec.RABIN_NAME}
     ctx.check("C14.R1", "advertised set = hashlib.algorithms_guaranteed | {SHA-256, MD5} | {CRC-64-AVRO}", algs is not None and set(algs) == want, smod.relpath + ":FINGERPRINT_ALGORITHMS", f"FINGERPRINT_ALGORITHMS folds to {sorted(algs) if algs else algs}", "the advertised algorithm set differs from the documented one")
     hashing = [n for n in walk_local(f.node) if isinstance(n, ast.Call) and (norm(n.func) in ("hashlib.new", "rabin_fingerprint") or norm(n.func).startswith("hashlib."))]
-    guards_ok = True
-    tests = [t for t in cfg.nodes if t.kind == "test" and norm(t.ast) == f"{alg_p} not in FINGERPRINT_ALGORITHMS"]
-    if len(tests) != 1:
-        guards_ok = False
-    else:
-        t = tests[0]
-        raising = [m for (m, lab) in t.succ if lab == "true"]
-        guards_ok = all(isinstance(m.ast, ast.Raise) and "ValueError" in norm(m.ast.exc) for m in raising) and all(cfg.edge_dominates(t, "false", cfg.node_of(h)) for h in hashing) and bool(hashing)
-    ctx.check("C14.R1", "unknown algorithm names raise ValueError before anything is hashed", guards_ok, f.where(tests[0].ast) if tests else f.where(), f"fingerprint: guard {[norm(t.ast) for t in tests]} over {[norm(h)[:40] for h in hashing]}", "names outside the advertised set can reach hashlib (which accepts many more spellings) instead of raising ValueError")
+    member = f"{alg_p} in FINGERPRINT_ALGORITHMS"
+    nonmember = f"{alg_p} not in FINGERPRINT_ALGORITHMS"
+    raises = [n for n in walk_local(f.node) if isinstance(n, ast.Raise) and n.exc is not None and "ValueError" in norm(n.exc) and nonmember in true_facts(cfg, cfg.node_of(n))]
+    unguarded = [h for h in hashing if member not in true_facts(cfg, cfg.node_of(h))]
+    guards_ok = bool(hashing) and bool(raises) and not unguarded
+    ctx.check("C14.R1", "unknown algorithm names raise ValueError before anything is hashed", guards_ok, f.where(unguarded[0]) if unguarded else f.where(), f"fingerprint: {len(raises)} raise(s) under `{nonmember}`; hashing not under `{member}`: {[norm(h)[:40] for h in unguarded]}", "names outside the advertised set can reach hashlib (which accepts many more spellings) instead of raising ValueError")
     ctx.check("C14.R1", "fingerprint has exactly two hashing calls (Rabin, hashlib.new)", sorted(norm(h.func) for h in hashing) == ["hashlib.new", "rabin_fingerprint"], f.where(), f"fingerprint: hashing calls {[norm(h.func) for h in hashing]}", "an additional or missing hashing path")
 
     ctx.rule("C14.R2", "Java spellings: mapping folds to {SHA-256: sha256, MD5: md5}, both guaranteed, applied before dispatch", floor=2)
